@@ -463,6 +463,9 @@ func (ev *evaluator) binary(x EBinary) *Val {
 	case "!=":
 		return boolVal(not(st.valEq(a, b)))
 	}
+	if a.S == SStr && b.S == SStr && x.Op == "+" {
+		return &Val{T: a.T, S: SStr, Tm: "(str_cat " + a.Tm + " " + b.Tm + ")"}
+	}
 	if a.S == SInt && b.S == SReal {
 		a = &Val{S: SReal, Tm: "(to_real " + a.Tm + ")"}
 	}
@@ -638,6 +641,13 @@ func (ev *evaluator) call(x ECall) *Val {
 	case "floor":
 		a := ev.eval(x.Args[0])
 		return intVal("(to_int " + a.Tm + ")")
+	case "addr": // addr(x): address of the address-taken local x
+		if id, ok := x.Args[0].(EIdent); ok {
+			if a, ok2 := ev.env["&"+id.Name]; ok2 {
+				return a
+			}
+		}
+		return ev.fail("addr(x): x is not an address-taken local on this path")
 	case "isnew": // isnew(x): x refers to an object allocated by this function activation (or is nil)
 		a := ev.eval(x.Args[0])
 		r := ev.asRef(a)
@@ -851,6 +861,9 @@ func (vf *VerifyFunc) checkPost(st *State, fr *Frame, rs []*Val, in ssa.Instruct
 	where := st.pos(in)
 	vf.canary(st)
 	for i, c := range vf.fc.Ensures {
+		if c.Def {
+			continue
+		}
 		t := vf.evalClause(st, c, env, nil)
 		st.check("post", lbl(c, fmt.Sprint(i)), c.Prop, c.Src, where, t)
 	}
